@@ -7,8 +7,8 @@
 From Coq Require Import List Arith NArith Bool String Ascii.
 From GIV.Lib Require Import Regex Str.
 From GIV.Gen Require Import AnnNames.
-From GIV.Model Require Import C02 C10.
-From GIV.Proofs Require Import C10.
+From GIV.Model Require Import C02 C10 C10B C10BSpec.
+From GIV.Proofs Require Import C10 C10L.
 Import ListNotations.
 Local Open Scope N_scope.
 
@@ -82,3 +82,18 @@ Example C10_dict_instance :
   parse_options_dict (Some (s "length=n fixed-size=3 zero-terminated org.example.filter=name=foo"))
   = [(s "length", Some (s "n")); (s "fixed-size", Some (s "3")); (s "zero-terminated", None); (s "org.example.filter", Some (s "name=foo"))].
 Proof. vm_compute. reflexivity. Qed.
+
+(* ---- the block level (Model/C10B.v: parse_comment_block, tied to the real parser by harness/c10b.py)
+
+   either line-ending convention: lines without CR and LF joined by LF, by CR LF or by CR are cut into exactly those lines ... *)
+Theorem C10_line_endings : forall sep ls,
+  sep_ok sep -> ls <> [] -> Forall plain_line ls -> split_breaks (join_lines sep ls) = ls.
+Proof. exact split_breaks_join. Qed.
+Print Assumptions C10_line_endings.
+
+(* ... so the whole result of the block parser - block, indentation, diagnostics - is the same under all three *)
+Theorem C10_block_line_endings : forall sep1 sep2 ls lineno,
+  sep_ok sep1 -> sep_ok sep2 -> ls <> [] -> Forall plain_line ls ->
+  parse_block (join_lines sep1 ls) lineno = parse_block (join_lines sep2 ls) lineno.
+Proof. exact parse_block_line_endings. Qed.
+Print Assumptions C10_block_line_endings.
